@@ -848,5 +848,187 @@ theorem decParams_tail {α : Type} (dc : DataCoder α) (a : α) (payload : Bits)
         simp only [register, decAcc, List.zipWith_cons_cons, List.append_assoc, List.cons_append, List.nil_append,
           List.length_append, Nat.add_assoc]
 
+/-! ## one section -/
+
+theorem pgood_of {s : SectionLayout} (hs : s.WF = true) (hok : layoutOK s = true) : ∀ p ∈ s.params, PGood p := by
+  intro p hp
+  simp only [SectionLayout.WF, Bool.and_eq_true, List.all_eq_true] at hs
+  simp only [layoutOK, Bool.and_eq_true, ctrlExact, noExpectZero, List.all_eq_true] at hok
+  refine ⟨hs.1.1.1.1.2 p hp, fun ha hc => ?_, fun hn => ?_⟩
+  · have := hok.1.1.2 p hp
+    simp only [ha, hc, Bool.and_self, Bool.not_true, Bool.false_or, Bool.or_eq_true, beq_iff_eq] at this
+    rcases this with (h0 | h0) | h0
+    · exact Or.inl h0
+    · exact Or.inr (Or.inl h0)
+    · exact Or.inr (Or.inr h0)
+  · have := hok.2 p hp
+    simpa [hn] using this
+
+theorem decAcc_canon (ps : List Param) (vs : List PVal) :
+    decAcc ps (List.zipWith canonV ps vs) = List.zipWith (fun p v => (p.name, canonV p v)) ps vs := by
+  induction ps generalizing vs with
+  | nil => rfl
+  | cons p ps ih =>
+    cases vs with
+    | nil => rfl
+    | cons v vs => simp only [decAcc, List.zipWith_cons_cons] at ih ⊢; rw [ih]
+
+theorem relVals_canon {payload : Bits} : ∀ (ps : List Param) (vs : List PVal) (w w1 : Bits),
+    (∀ p ∈ ps, PGood p) → encParams payload ps vs w = .ok w1 → RelVals ps vs (List.zipWith canonV ps vs) := by
+  intro ps
+  induction ps with
+  | nil => intro vs _ _ _ _; cases vs <;> trivial
+  | cons p ps ih =>
+    intro vs w w1 hg h
+    cases vs with
+    | nil => simp only [encParams] at h; cases h
+    | cons v vs =>
+      simp only [encParams] at h
+      split at h
+      · cases h
+      rename_i wa h1
+      exact ⟨PRel_canon p v, fun hp hc => canonV_exact h1 ((hg p List.mem_cons_self).2.1 hp hc),
+        ih vs wa w1 (fun q hq => hg q (List.mem_cons_of_mem _ hq)) h⟩
+
+theorem hasData_false_of_fixed {ps : List Param} (h : ∀ p ∈ ps, p.widthOK = true ∧ p.nbits ≠ 0) : hasData ps = false := by
+  simp only [hasData, List.any_eq_false, beq_iff_eq]
+  intro p hp hty
+  obtain ⟨hw, hn⟩ := h p hp
+  simp [Param.widthOK, hty] at hw
+  exact hn hw
+
+/-- a section without a section length (all widths fixed; the family condition makes it unpadded) -/
+theorem decSection_noLen {α : Type} (dc : DataCoder α) {s : SectionLayout} {vs : List PVal} {payload x : Bits}
+    (hs : s.WF = true) (hok : layoutOK s = true) (hh : s.hasParam "section_length" = false)
+    (hvs : valsOK s.params vs = true) (h : ∀ w0, encParams payload s.params vs w0 = .ok (w0 ++ x))
+    (regD : Registry) (start : Nat) :
+    RelVals s.params vs (List.zipWith canonV s.params vs) ∧ hasData s.params = false ∧
+    ∀ suf, decSection dc s regD start (x ++ suf) = .ok
+      (({ index := s.index, params := decAcc s.params (List.zipWith canonV s.params vs), nbits := x.length },
+        register regD start 0 s.params (List.zipWith canonV s.params vs), none), suf) := by
+  have hg := pgood_of hs hok
+  have hfix : ∀ p ∈ s.params, p.widthOK = true ∧ p.nbits ≠ 0 := by
+    intro p hp
+    refine ⟨(hg p hp).1, ?_⟩
+    simp only [SectionLayout.WF, Bool.and_eq_true, Bool.or_eq_true, List.all_eq_true] at hs
+    rcases hs.1.1.2 with h0 | h0
+    · simpa using h0 p hp
+    · rw [hh] at h0; cases h0
+  obtain ⟨_, hd⟩ := decParams_fixed dc payload start s.params vs [] x hfix hvs (h [])
+  refine ⟨relVals_canon _ _ _ _ hg (h []), hasData_false_of_fixed hfix, fun suf => ?_⟩
+  simp only [decSection, R.bind, hd, finishSection, hh, Bool.false_eq_true, if_false, R.pure, List.nil_append,
+    Nat.zero_add, decAcc_canon]
+
+theorem wf_expectedOK {s : SectionLayout} (hs : s.WF = true) {p : Param} (hp : p ∈ s.params) (hty : p.ty ≠ .bytes) :
+    p.expected = none := by
+  simp only [SectionLayout.WF, Bool.and_eq_true] at hs
+  have := List.all_eq_true.mp hs.2 p hp
+  cases he : p.expected with
+  | none => rfl
+  | some e =>
+    rw [he] at this
+    simp only [Bool.and_eq_true, beq_iff_eq] at this
+    exact absurd this.1 hty
+
+/-- a section with a section length -/
+theorem decSection_len {α : Type} (dc : DataCoder α) (a : α) {cfg : EncCfg} {s : SectionLayout} {vs : List PVal}
+    {payload B : Bits} (hs : s.WF = true) (hok : layoutOK s = true) (hh : s.hasParam "section_length" = true)
+    (hvs : valsOK s.params vs = true) (hB : LenShape cfg s vs payload B)
+    (regE regD : Registry) (start : Nat) (hreg : RegRel regE regD)
+    (hdc : hasData s.params = true → ∀ rD, RegRel (register regE start 0 (beforeData s.params) vs) rD →
+      ∀ x, dc.dec rD (payload ++ x) = .ok (a, x)) :
+    ∃ vsD, RelVals s.params vs vsD ∧
+      ∀ suf, decSection dc s regD start (B ++ suf) = .ok
+        (({ index := s.index, params := decAcc s.params vsD, nbits := B.length },
+          register regD start 0 s.params vsD, if hasData s.params = true then some a else none), suf) := by
+  obtain ⟨p, ps, d, vs', y, z, H, ed, hp, hname, hnb, hty, hvs', hy, hBe, hH24, hH, _⟩ := hB.ex
+  have hg := pgood_of hs hok
+  have hpm : p ∈ s.params := by rw [hp]; exact List.mem_cons_self
+  have hexp : p.expected = none := wf_expectedOK hs hpm (by rw [hty]; decide)
+  have hwp : p.widthOK = true := (hg p hpm).1
+  have hn0 : p.nbits ≠ 0 := by omega
+  -- the length field as the decoder sees it
+  have henc : encParam [] p (.int (Int.ofNat H)) payload = .ok ([] ++ toBits 24 H) := by
+    simp only [encParam, hty, hnb]
+    exact writeUInt_ofNat [] 24 H (by decide) hH24
+  have hvH : valOK p (.int (Int.ofNat H)) = true := by simp [valOK, hexp]
+  have hfix := fun st suf => (decValue_fixed dc (st := st) (suf := suf) hwp hn0 hvH henc).1
+  have hcv : canonV p (.int (Int.ofNat H)) = .int (Int.ofNat H) := rfl
+  -- state after the length field
+  let st0 : DecSt α := { reg := regD, acc := [], used := 0, data := none }
+  let st1 : DecSt α :=
+    { reg := if p.asProperty then (p.name, { val := .int (Int.ofNat H), nbits := p.nbits, pos := start + 0 }) :: regD else regD,
+      acc := [(p.name, .int (Int.ofNat H))], used := 0 + (toBits 24 H).length, data := none }
+  let rE1 : Registry := if p.asProperty then (p.name, { val := .int d, nbits := p.nbits, pos := start + 0 }) :: regE else regE
+  have hreg1 : RegRel rE1 st1.reg := by
+    show RegRel (if p.asProperty then _ else _) (if p.asProperty then _ else _)
+    by_cases hpa : p.asProperty = true
+    · simp only [hpa, if_true]
+      refine ⟨⟨rfl, rfl, rfl, Or.inr (Or.inl (Or.inl hname)), fun hc => ?_⟩, hreg⟩
+      simp only at hc
+      rw [hname] at hc
+      exact absurd hc (by decide)
+    · simp only [hpa]; exact hreg
+  have hsl1 : secLen st1.acc = .ok H := by
+    show secLen [(p.name, PVal.int (Int.ofNat H))] = .ok H
+    simp [secLen, List.lookup, hname]
+  have hu1 : st1.used = 24 := by show 0 + (toBits 24 H).length = 24; rw [toBits_length]
+  have hpnd : (p.ty != .templateData) = true := by rw [hty]; decide
+  have hhd : hasData s.params = hasData ps := by
+    rw [hp]; simp only [hasData, List.any_cons, hty]; rfl
+  have hal : descAlignedGo ps st1.used = true := by
+    have := (show descAligned s = true by
+      simp only [layoutOK, Bool.and_eq_true] at hok; exact hok.1.1.1)
+    simp only [descAligned, hp, descAlignedGo, Bool.and_eq_true, hnb, Nat.zero_add] at this
+    rw [hu1]; exact this.2
+  rw [hp, hvs'] at hvs
+  simp only [valsOK, Bool.and_eq_true] at hvs
+  obtain ⟨vsD, z', dat, hz', hrel, hdat, hrun⟩ := decParams_tail dc a payload start H ps vs' [] y z (0 + p.nbits) st1 rE1
+    (fun q hq => hg q (by rw [hp]; exact List.mem_cons_of_mem _ hq))
+    (zl_tail (by have := zl_of_zeroLast (s := s) (by
+      simp only [SectionLayout.WF, Bool.and_eq_true] at hs; exact hs.1.1.1.2); rwa [hp] at this))
+    hal hvs.2 (hy []) hsl1 (by rw [hu1]; omega) hreg1
+    (fun hd rD hr => hdc (by rw [hhd]; exact hd) rD (by
+      have hbd : beforeData (p :: ps) = p :: beforeData ps := by
+        simp only [beforeData, List.takeWhile_cons, hpnd, if_true]
+      rw [hp, hvs', hbd]; exact hr))
+  refine ⟨.int (Int.ofNat H) :: vsD, by
+    rw [hp, hvs']
+    exact ⟨Or.inr (Or.inl (Or.inl hname)), fun _ hc => absurd (hname ▸ hc) (by decide), hrel⟩, fun suf => ?_⟩
+  have hc := counted_append (hfix st0 (y ++ (zeros z ++ suf)))
+  have hce : checkExpected p (.int (Int.ofNat H)) = .ok () := by simp [checkExpected, hexp]
+  subst hdat
+  have hrun' := hrun suf
+  have hsl2 : secLen (st1.acc ++ decAcc ps vsD) = .ok H := secLen_append hsl1
+  rw [hBe]
+  simp only [decSection, R.bind]
+  rw [hp]
+  simp only [List.append_assoc, decParams, R.bind, List.nil_append] at hc ⊢
+  rw [hc]
+  simp only [hcv, hce, R.lift, R.pure]
+  rw [hrun']
+  simp only [finishSection, hh, if_true, R.bind, hsl2, R.lift, R.pure]
+  have hlenB : (toBits 24 H ++ (y ++ zeros z)).length = H * 8 := by
+    simp only [List.length_append, toBits_length, zeros_length]; omega
+  have hdat' : (match (if hasData ps = true then some a else none : Option α) with
+      | some b => some b | none => st1.data) = if hasData (p :: ps) = true then some a else none := by
+    rw [← hp, hhd]
+    by_cases hd : hasData ps = true
+    · simp only [hd, if_true]
+    · simp only [hd, if_false]; rfl
+  have hregf : register st1.reg start (0 + p.nbits) ps vsD = register regD start 0 (p :: ps) (PVal.int (Int.ofNat H) :: vsD) := rfl
+  have haccf : st1.acc ++ decAcc ps vsD = decAcc (p :: ps) (PVal.int (Int.ofNat H) :: vsD) := rfl
+  rw [hdat', hregf, haccf, hlenB]
+  by_cases hz0 : z' = 0
+  · subst hz0
+    have h1 : ¬ (st1.used + y.length + (z - 0) < H * 8) := by omega
+    have h2 : ¬ (H * 8 < st1.used + y.length + (z - 0)) := by omega
+    have h3 : st1.used + y.length + (z - 0) = H * 8 := by omega
+    rw [if_neg h1, if_neg h2, h3]
+    rfl
+  · have h1 : st1.used + y.length + (z - z') < H * 8 := by omega
+    have h3 : H * 8 - (st1.used + y.length + (z - z')) = z' := by omega
+    simp only [h1, if_true, R.map, R.bind, readBin, h3, readBits_append_of_length _ _ suf (zeros_length z'), R.pure]
+
 end RT
 end Bufr
